@@ -41,7 +41,12 @@ impl IrValue {
             }
 
             BigUint(big) => {
-                let bytes = big.to_bytes_le();
+                // `to_bytes_le` represents zero as `[0]`, but zero fits in 0 bytes.
+                let bytes = if big.bits() == 0 {
+                    vec![]
+                } else {
+                    big.to_bytes_le()
+                };
                 if bytes.len() > n {
                     Err(Error::Other(format!("cannot convert {big} to Bytes({n})")))
                 } else {
